@@ -122,7 +122,7 @@ def run(v) -> None:
     v.add_tlc(tlc.must_pass(tlc.run("MC_Conv", "MC_Conv_conv.cfg", workers=4), "MC_Conv conv"), "MC_Conv_conv")
     v.add_tlc(tlc.must_pass(tlc.run("MC_Conv", "MC_Conv_trig.cfg", workers=4), "MC_Conv trig"), "MC_Conv_trig")
     cases = []
-    maxn = 40 if quick else 64
+    maxn = 40 if quick else 96
 
     def seq(n, cls, amp):
         if cls == "const":
